@@ -7,6 +7,18 @@ HERE = os.path.dirname(os.path.abspath(__file__))
 
 # property -> (technique, level text, level note, design ref)
 CLAIMED = {
+    "C13": (
+        "runtime monitor of the codec boundary: round-trip oracle on write_ppm→read_pnm/parse_pnm, differential oracle between the harness's own P2/P3/P5/P6 encoder and the decoder, panic capture and independent header reader on dictionary-mutated, truncated and random byte strings; journal-before-call + address-space cap so that an aborting allocation is attributed to its input",
+        "Round trip on images 0..48 px a side (owned and strided sub-views, zero extents, pixel bytes biased to whitespace/'#'/digits right after the header); the same pixel data spelled as P5/P2 and P6/P3 with random whitespace runs and whitespace-preceded comments must decode to the model image; ≥ 600 000 (thorough 60 M) mutated/truncated/random inputs must never panic, and every Ok(image) must have w·h pixels and the header's dims. Both build profiles.",
+        "Dims are cross-checked only for headers whose comments are whitespace-preceded (the spelling the property covers); P1/P4: totality only. Inputs ≤ 64 KiB; process runs under an 8 GiB address-space cap with per-case journalling.",
+        "DESIGN.md §5 C13",
+    ),
+    "C14": (
+        "runtime monitor of the parser boundary: faithfulness oracle (the generator keeps the mesh it printed, with coordinate literals whose f32 value is known a priori) and totality oracle (panic capture, index-range check, build()) on dictionary-mutated, truncated and random byte strings; journal-before-call + address-space cap",
+        "Random meshes printed with indentation, blank lines, comments, CR LF, the four index forms and faces before/after/interleaved with their vertices must parse to exactly the printed positions (bit-exact) and zero-based triangles through both parse_obj and read_obj; ≥ 600 000 (thorough 60 M) hostile inputs (index 0, negative, 2^32, 2^64, faces without vertices, missing fields, non-ASCII) must yield an error or a builder whose indices are valid and whose build() succeeds. Both build profiles.",
+        "Generated faces are triangles (longer faces are outside the property). std's decimal→f32 parsing is trusted; literals are chosen so their value is known without it (dyadic rationals) or guaranteed by std's shortest round-trip Display.",
+        "DESIGN.md §5 C14",
+    ),
     "C11": (
         "runtime history + executable-model monitor: plain Vec<u64> model with per-view cell-index lists, unique ids per write, every operation re-derived from the root along its slicing path, whole backing store compared with the model after every operation; expected-panic oracle for every out-of-bounds access, slicing and constructor; exhaustive small domain + random histories; Miri on a reduced workload (thorough)",
         "Exhaustive: all buffer dims 0..3 (thorough 0..4) squared × all first- and second-level sub-rectangles × every operation (get/get_mut, point and row indexing (mutable too), rows/iter (mutable too), fill, fill_with, copy_from, dims) with in-bounds and just-out-of-bounds arguments, rotating through every range spelling ((a..b,c..d), inclusive, ..b, a.., (..,..), .., Range<Vec2u>, one-axis forms). Random: histories of 20..120 steps on buffers ≤ 24x24 rooted at Buf2 or at MutSlice2::new with stride ≥ width and surplus data, paths to depth 3, incl. zero-width/height. Reads are cross-checked through slice() and slice_mut() paths. Constructors: accept iff the data can hold the dims.",
